@@ -20,6 +20,7 @@ type Case struct {
 	D    string  `json:"d"`
 	Amps []int64 `json:"amps"`
 	Pad  int     `json:"pad,omitempty"` // the amplitudes are repeated cyclically up to this buffer length
+	Fix  int     `json:"fix,omitempty"` // source construction order, see convtab.Entry.NewBlockFix
 }
 
 // Pairs are the 121 fixed-to-fixed instantiations.
@@ -37,7 +38,7 @@ func Check(c *Case) (res kit.Result) {
 	}
 	ds, dd := e.S.Bits, e.D.Bits
 	lo, hi := numkit.Lo(ds), numkit.Hi(ds)
-	if c.Pad < 0 || c.Pad > 1<<20 {
+	if c.Pad < 0 || c.Pad > 1<<20 || c.Fix < 0 || c.Fix > 2 {
 		return
 	}
 	in := kit.PadInts(append([]int64{lo, 0, hi}, c.Amps...), c.Pad)
@@ -51,7 +52,7 @@ func Check(c *Case) (res kit.Result) {
 	}
 	sort.Slice(in, func(i, j int) bool { return in[i] < in[j] })
 	out := make([]int64, len(in))
-	if p, v := kit.Try(func() { e.NewBlock()(in, nil, out, nil) }); p {
+	if p, v := kit.Try(func() { e.NewBlockFix(c.Fix)(in, nil, out, nil) }); p {
 		res.Failf("%s panicked: %v", e, v)
 		return
 	}
@@ -91,6 +92,7 @@ func FP(c *Case) uint64 {
 	h.Str(c.D)
 	h.Int(len(c.Amps))
 	h.Int(c.Pad)
+	h.Int(c.Fix)
 	for _, a := range c.Amps {
 		h.U64(uint64(a))
 	}
@@ -107,6 +109,7 @@ func Gen(t *rapid.T) *Case {
 	}
 	c := &Case{S: e.S.Name, D: e.D.Name}
 	c.Pad = kit.GenPad(t)
+	c.Fix = rapid.IntRange(0, 2).Draw(t, "fix")
 	n := rapid.IntRange(2, 24).Draw(t, "n")
 	base := kit.GenAmp(t, e.S.Bits, bAmps[e.S.Bits])
 	for i := 0; i < n; i++ {
